@@ -30,7 +30,7 @@ from props import _dfpart_util as U
 PROP = "C38"
 READY = True
 DRIVER = "dm_dfpart"
-LEAN_MODULES = ["DaskModel.Props.C38"]
+LEAN_MODULES = ["DaskModel.Props.C38", "DaskModel.Props.C38xKeyed"]
 TABLES = ["GroupbyAggs", "GroupbyCums"]
 CASE_TIMEOUT_S = 90
 ASSUMPTIONS = ["pandas' groupby kernels on ONE partition (sum/min/first/idxmin/cumsum/unique/... of the groups of a frame) and on the "
@@ -40,7 +40,11 @@ ASSUMPTIONS = ["pandas' groupby kernels on ONE partition (sum/min/first/idxmin/c
                "the hash that routes a group key to an output partition is a function of the key (colocation, C40); the task "
                "shuffle keeps the source order of the pieces (C40 simple_shuffle_exact), the disk shuffle does not",
                "integer-valued data in the Lean diffs (the model is exact there); float results are compared within 1e-9",
-               "NaN / categorical group keys (dropna, observed) and multi-key / index / series groupers are outside the model"]
+               "categorical group keys (observed) and multi-key / index / series groupers are outside the model; NaN keys with dropna "
+               "are modelled for nunique and the cumulative family only (Model/GroupbyX.lean), for the other operations they are "
+               "validated against pandas",
+               "idxmin/idxmax: the lexicographic (value, position) merge of Props/C38xKeyed is the REPAIRED merge (a specification); "
+               "the code's (idxmin, first) pair is modelled by idxCurrent and refuted"]
 TRUSTED = ["pandas (reference oracle AND per-partition kernel)", "the pyarrow import stub of harness/core.import_dd (pandas-backed strings)"]
 LEVEL_TEXT = ("PROVED in Lean 4 for every frame, partitioning, split_every >= 1 and hash function (model: Model/Groupby.lean): "
               "groupby_agg_eq_global (tree reduction of the per-partition partials = whole-frame aggregate for every associative "
@@ -58,12 +62,27 @@ LEVEL_TEXT = ("PROVED in Lean 4 for every frame, partitioning, split_every >= 1 
               "(known finding; the tie checks that dask equals THIS model exactly). VALIDATED ONLY (against pandas, no theorem): "
               "list/dict/named agg specs, several keys, index/series keys, NaN keys with dropna, categorical keys with observed, "
               "std as sqrt, cov/corr, value_counts, transform/shift/ffill/bfill/apply/median per-group functions, sort in "
-              "{True, False, None}. 10 recorded findings (root causes), each recognised only by a verified symptom.")
+              "{True, False, None}. 10 recorded findings (root causes), each recognised only by a verified symptom. "
+              "EXTENSION (Props/C38xKeyed.lean on Model/GroupbyX.lean, group keys that may be NaN): groupby_nunique_eq_global "
+              "(dropna both ways: the NaN group is kept / leaves, nunique_nan_group_dropped); groupby_idxmin/idxmax_eq_global + "
+              "idx_result_is_first_extremum + idx_result_none (repaired merge: partial = (extreme value, first position), "
+              "lexicographic merge = pandas' first occurrence for every partitioning and tree; commutative, so "
+              "idx_repaired_arrival_order_irrelevant) with idx_code_merge_is_first (extracted: the code still aggregates with "
+              "`first`) and idxmax_current_refuted; groupby_cum_eq_global (+ cumsum/cumprod/cumcount instances: cum_raw plus "
+              "the carried per-group last running value = whole-frame scan, groups absent from partitions, NaN-key group with "
+              "dropna=False, provided the SAME dropna reaches the chunk site and the carry site), cum_carry_is_running_value "
+              "(every carry table (cum-last, i) of the graph = last running value per group over partitions < i), "
+              "cum_carry_count, cum_carry_dropna_needed (refutation when the carry site loses dropna).")
 LEVEL_NOTE = ("Trusted: Lean kernel + propext/Classical.choice/Quot.sound; pandas kernels on one partition (see ASSUMPTIONS); float "
               "rounding (mean/var compared within 1e-9, exact on integer data); the hash function is abstract. The tie is "
               "function level for _cum_agg_filled, _cum_agg_aligned, TreeReduce._layer (batch sizes of every level) and the two "
               "extracted class tables, API level (dask vs Lean model vs pandas) for the aggregations, nunique, idxmin/idxmax and "
-              "the cumulative operations on int keys; everything else is API level against pandas only.")
+              "the cumulative operations on int keys; everything else is API level against pandas only. Extension sections "
+              "kx_*: function level for the carry tables (cum-last, i) and the cum_last table of every partition COMPUTED OUT OF "
+              "THE REAL GRAPH vs cumCarryD/cumLastD (the dropna of the two `_apply_chunk` sites is read off the real expression "
+              "and fed to the model as two flags), for NUnique.chunk/nunique_df_combine/nunique_df_aggregate hand-wired as a "
+              "split_every tree with the expression's own kwargs vs nuniqueD, for IdxMin/IdxMax.groupby_chunk per partition vs "
+              "the model's chunk state; the lexicographic idx merge is a specification (not in the source).")
 TECHNIQUE = ("Lean 4 proof (keyed monoid homomorphism: tree = flat = whole frame; set-union invariant for nunique; scan with carried "
              "state for cumulative ops; exact rationals for var) + AST-extracted class tables + differential correspondence "
              "against the model and pandas, known findings recognised by executable defect descriptions")
@@ -773,6 +792,11 @@ def case_joint(ctx, inp):
 
 CASES = {"joint": case_joint, "tree_shape": case_tree_shape, "cum_fn": case_cum_fn, "agg_model": case_agg_model, "agg_keys": case_agg_keys, "agg_spec": case_agg_spec, "misc": case_misc}
 
+# extension round: NaN keys / dropna for nunique and the cumulative family, carry tables out of the graph, idxmin/idxmax as a
+# lexicographic merge (Model/GroupbyX.lean, Props/C38xKeyed.lean); sections kx_* in _c38_keyed.py
+from props import _c38_keyed as _kx   # noqa: E402
+CASES.update(_kx.CASES)
+
 
 def _rand_frame(rng, keykind="int"):
     n = rng.randint(1, 30)
@@ -953,5 +977,7 @@ def _gen_joint(ctx):
 
 
 def generate(ctx):
+    yield from _kx.directed(ctx)          # no randomness: the older streams keep their inputs
     yield from _interleave([(_gen_joint(ctx), 1), (_gen_function_level(ctx), 2), (_gen_exhaustive(ctx), 2), (_gen_modelled_ops(ctx), 1), (_gen_agg_model(ctx), 3), (_gen_agg_keys(ctx), 1), (_gen_agg_spec(ctx), 1),
                             (_gen_cumulative(ctx), 1), (_gen_misc(ctx), 2)])
+    yield from _kx.generate(ctx)
